@@ -17,6 +17,7 @@ CONSTANTS
     Amts, SendDenoms, VestEnds,                 \* bank alphabet
     GovAmts,                                    \* amounts of governance community-pool spends to the burn address ({} = none)
     Fees,                                       \* fee choices, e.g. {0,1}
+    Fees2,                                      \* amounts of the SECOND denomination added to the fee, e.g. {0} or {0, 3}
     Kinds,                                      \* enabled message types
     SignerSets,                                 \* "exact" | "all": which signer sets are tried
     ExecOn,                                     \* BOOLEAN: also wrap single-signer messages in authz Exec
@@ -67,6 +68,8 @@ DocByName(d, name) ==
       [] name = "R1"  -> [Doc(d, {Vm("v1", "k1", "es19")}, {Ref("v1")}, {}) EXCEPT !.ex = "rich"]                    \* A1 plus controller, contexts, key agreement, services
       [] name = "E1"  -> Doc(d, {Vm("v1", "k1", "ed25")}, {Ref("v1")}, {})                                   \* Ed25519-typed method holding a secp256k1 key
       [] name = "U1"  -> Doc(d, {Vm("v1", "k1", "x20")}, {Ref("v1")}, {})                                   \* a key type the module has no constant for (any non-empty type string is admitted statelessly)
+      [] name = "R2"  -> [Doc(d, {Vm("v1", "k1", "es19")}, {Ref("v1")}, {}) EXCEPT !.ex = "rich2"]                   \* R1 with its controller listed twice
+      [] name = "X1"  -> [Doc(d, {Vm("v1", "k1", "es19")}, {Ref("v1")}, {}) EXCEPT !.ex = "xvm"]                     \* A1 whose method ids carry the TWIN did's prefix (malformed)
       [] name = "N0"  -> Doc(d, {Vm("v1", "k1", "es19")}, {}, {})                                            \* no authentication at all (statelessly invalid)
       [] name = "EMP" -> EmptyDoc
 
@@ -103,8 +106,8 @@ VmDids(d) == IF ForeignVm THEN Dids ELSE {d}
 
 DidMsgs ==
     (IF "did.Create" \in Kinds THEN
-        UNION { UNION { {[type |-> "did.Create", did |-> d, doc |-> dc, vm |-> v, vmDid |-> IF dc.id = "" THEN d ELSE dc.id, proof |-> p, from |-> Relayer] :
-                            v \in VmNames, p \in ProofsFor(d, dc)} : dc \in AllDocs } : d \in Dids } ELSE {})
+        UNION { UNION { {[type |-> "did.Create", did |-> d, doc |-> dc, vm |-> v, vmDid |-> vd, proof |-> p, from |-> Relayer] :
+                            v \in VmNames, p \in ProofsFor(d, dc), vd \in {d, IF dc.id = "" THEN d ELSE dc.id}} : dc \in AllDocs } : d \in Dids } ELSE {})
     \cup (IF "did.Update" \in Kinds THEN
         UNION { UNION { {[type |-> "did.Update", did |-> d, doc |-> dc, vm |-> v, vmDid |-> vd, proof |-> p, from |-> Relayer] :
                             v \in VmNames, p \in ProofsFor(d, dc), vd \in VmDids(d)} : dc \in AllDocs } : d \in Dids } ELSE {})
@@ -118,8 +121,8 @@ DidLikely ==
     IF Kinds \cap {"did.Create", "did.Update", "did.Deactivate"} = {} THEN {}
     ELSE UNION { LET c == Cell(didReg, d) IN
                  IF Status(c) = "absent"
-                 THEN UNION { {[type |-> "did.Create", did |-> d, doc |-> dc, vm |-> a.n, vmDid |-> dc.id,
-                                proof |-> [key |-> k, data |-> dc, seq |-> 0], from |-> Relayer] : a \in dc.auth, k \in AuthKeysOf(dc)} : dc \in AllDocs \ {EmptyDoc} }
+                 THEN UNION { {[type |-> "did.Create", did |-> d, doc |-> dc, vm |-> a.n, vmDid |-> vd,
+                                proof |-> [key |-> k, data |-> dc, seq |-> 0], from |-> Relayer] : a \in dc.auth, k \in AuthKeysOf(dc), vd \in {d, dc.id}} : dc \in AllDocs \ {EmptyDoc} }
                  ELSE IF Status(c) = "active"
                  THEN UNION { {[type |-> "did.Update", did |-> d, doc |-> dc, vm |-> a.n, vmDid |-> c.doc.id,
                                 proof |-> [key |-> k, data |-> dc, seq |-> c.seq], from |-> Relayer] : a \in c.doc.auth, k \in AuthKeysOf(c.doc)} : dc \in AllDocs }
@@ -199,7 +202,7 @@ SignerChoices(ms, ex) ==
 
 ExecChoices(ms) == IF ExecOn /\ Len(ms) = 1 /\ ms[1].type \in CustomTypes THEN {"none"} \cup Accts ELSE {"none"}
 
-Txs == UNION { UNION { {[msgs |-> ms, signers |-> sg, fee |-> f, exec |-> ex] : sg \in SignerChoices(ms, ex), f \in Fees}
+Txs == UNION { UNION { {[msgs |-> ms, signers |-> sg, fee |-> f, exec |-> ex, fee2 |-> f2] : sg \in SignerChoices(ms, ex), f \in Fees, f2 \in Fees2}
                        : ex \in ExecChoices(ms) } : ms \in MsgSeqs }
 
 MCDeliver(tx) ==
